@@ -212,6 +212,11 @@ func FP() uint64 {
 
 var active *Sched
 
+// FreeRunning is set by the race pass: harness bodies run as ordinary goroutines on the real
+// primitives (shims pass through), so that Go's race detector sees the real happens-before
+// relation. Nothing is decided in this mode.
+var FreeRunning bool
+
 // Active reports whether a scheduler is running.
 func Active() bool { return active != nil && !active.aborting }
 
@@ -389,6 +394,17 @@ func (s *Sched) parkForever() {
 func Block(why string, ready func() bool) {
 	s := active
 	if s == nil {
+		if FreeRunning {
+			// race pass: real goroutines, poll the predicate (its reads are harness state; the
+			// race filter ignores reports whose frames are all in harness code)
+			for i := 0; !ready(); i++ {
+				if i > 200000 {
+					panic("vrt.Block (free running) timed out: " + why)
+				}
+				time.Sleep(50 * time.Microsecond)
+			}
+			return
+		}
 		panic("vrt.Block without scheduler: " + why)
 	}
 	if s.aborting {
@@ -832,6 +848,9 @@ func (t *Timer) Reset(d time.Duration) bool {
 func Sleep(d time.Duration) {
 	s := active
 	if s == nil {
+		if FreeRunning && d > 5*time.Millisecond {
+			d = 5 * time.Millisecond // the race pass does not wait for TTLs
+		}
 		time.Sleep(d)
 		return
 	}
